@@ -129,7 +129,7 @@ let payload_text (p : payload) : string =
       Printf.sprintf "ACK %s %s %d %d"
         (match a.ack_dir with DirEoF -> "E" | DirFinished -> "F" | DirOther -> "X")
         (match a.ack_sub with SubFinished -> "F" | SubOther -> "O")
-        (code_of_cond a.ack_cond) (status_code a.ack_status)
+        (code_of_cond a.ack_cond) (status_code a.ack_tstatus)
   | PMetadata m ->
       Printf.sprintf "MD %d %s %s %s %s %d%s %d%s" (if m.md_closure then 1 else 0)
         (match m.md_ck with CkModular -> "M" | CkNull -> "N")
@@ -162,7 +162,7 @@ let parse_payload (t : string list) : payload =
         { ack_dir = (match nth 1 with "E" -> DirEoF | "F" -> DirFinished | _ -> DirOther);
           ack_sub = (if nth 2 = "F" then SubFinished else SubOther);
           ack_cond = cond 3;
-          ack_status = (match nth 4 with "0" -> SUndefined | "1" -> SActive | "2" -> STerminated | _ -> SUnrecognized) }
+          ack_tstatus = (match nth 4 with "0" -> SUndefined | "1" -> SActive | "2" -> STerminated | _ -> SUnrecognized) }
   | "MD" ->
       let nreq = int_of_string (nth 6) in
       let nmsg = int_of_string (nth (7 + nreq)) in
@@ -193,14 +193,14 @@ let ind_text (i : indication) : string =
   | IEoFSent -> "EOFSENT"
   | IEoFRecv -> "EOFRECV"
   | IFinished (r, fs, dc, resps) ->
-      Printf.sprintf "FIN %s %d %d %d %d %d%s" (state_ch r.rp_state) (status_code r.rp_status)
-        (code_of_cond r.rp_cond) (fs_code fs) (dc_code dc) (List.length resps) (hexs resps)
+      Printf.sprintf "FIN %s %d %d %d %d %d%s" (state_ch r.trp_state) (status_code r.trp_status)
+        (code_of_cond r.trp_cond) (fs_code fs) (dc_code dc) (List.length resps) (hexs resps)
   | IMetadataRecv (src, dst, size, msgs) ->
       Printf.sprintf "MDR %s %s %s %d%s" (hex_of_bytes src) (hex_of_bytes dst) (sn size) (List.length msgs) (hexs msgs)
   | IFileSegmentRecv (o, l) -> Printf.sprintf "SEG %s %s" (sn o) (sn l)
   | ISuspended c -> Printf.sprintf "SUSP %d" (code_of_cond c)
   | IResumed p -> Printf.sprintf "RES %s" (sn p)
-  | IReport r -> Printf.sprintf "REP %s %d %d" (state_ch r.rp_state) (status_code r.rp_status) (code_of_cond r.rp_cond)
+  | IReport r -> Printf.sprintf "REP %s %d %d" (state_ch r.trp_state) (status_code r.trp_status) (code_of_cond r.trp_cond)
   | IFault (c, p) -> Printf.sprintf "FAULT %d %s" (code_of_cond c) (sn p)
   | IAbandon (c, p) -> Printf.sprintf "ABANDON %d %s" (code_of_cond c) (sn p)
 
